@@ -564,6 +564,8 @@ pub fn gen_driver(prop: &str, rng: &mut Rng, sh: &mut Shards, out: &str, thoroug
             let kinds: Vec<(&'static str, DataForm)> = vec![
                 ("dw", DataForm::Num(0x1234)), ("dw", DataForm::Num(-2)), ("db", DataForm::Num(0x5A)),
                 ("dw", DataForm::Fill(0x4321, 2)), ("db", DataForm::Fill(0x77, 4)), ("dw", DataForm::Zero(2)), ("db", DataForm::Zero(4)),
+                // (fills with the value 0 must clear what an earlier definition put there, like any other value)
+                ("dw", DataForm::Fill(0, 2)), ("db", DataForm::Fill(0, 4)), ("dw", DataForm::Num(0)), ("db", DataForm::Num(0)),
                 ("dw", DataForm::Str("ab".into())), ("db", DataForm::Str("wxyz".into())),
             ];
             // a segment filled to exactly 64 KiB (the largest amount that is not refused), over earlier non-zero data
